@@ -30,8 +30,8 @@ HEX32 = "0123456789abcdef0123456789abcdef"
 UUIDTXT = "12345678-1234-4234-8234-123456789abc"
 LONG = "L" * 1024
 ODDWS = "Z\u00a0\tq\u200b"          # starts with Z (sorts first), contains nbsp, tab, zero-width space
-NAMES_Q = ["b", "a", ODDWS, "ä", HEX32]
-NAMES_T = ["b", "a", "Z", "ä", " ", "..", HEX32, UUIDTXT, "urn:uuid:" + UUIDTXT, LONG, ODDWS, "nl\nx"]
+NAMES_Q = ["ab", "a", ODDWS, "ä", HEX32]
+NAMES_T = ["ab", "a", "Z", "ä", " ", "..", HEX32, UUIDTXT, "urn:uuid:" + UUIDTXT, LONG, ODDWS, "nl\nx"]
 CHUNK = 4
 WALL_CAP = {"quick": 900, "thorough": 7200}
 
